@@ -4,7 +4,7 @@ import struct
 
 from .. import bits as B_
 from ..astutil import dotted, method_call
-from ..cfg import cfg_of, fact_key, norm, walk_own
+from ..cfg import canon_test, cfg_of, fact_key, norm, walk_own
 from ..consteval import UNKNOWN, Scope, fold, fold_in
 from ..mutate import B, M
 from ..symexec import paths_of
@@ -272,7 +272,7 @@ def check(ctx):
             masks[fold_in(init, n.right)] = True
     ctx.inst('R6', init, 'param-masks', set(masks) == {0x0F, 0x10, 0x40}, 'metadata masks %s, expected type 0x0F, extended 0x10, read-only 0x40' % sorted(masks))
     sts = {norm(s.targets[0]): s for s in sorted([x for x in walk_own(init.node) if isinstance(x, ast.Assign)], key=lambda x: x.lineno)}
-    ctx.inst('R6', init, 'param-extended-bit', 'self.extended' in sts and norm(sts['self.extended'].value) in ('metadata & 16 != 0', '(metadata & 16) != 0', 'bool(metadata & 16)'),
+    ctx.inst('R6', init, 'param-extended-bit', 'self.extended' in sts and (canon_test(sts['self.extended'].value) in (fact_key('metadata & 16 != 0')[0], 'not ' + fact_key('metadata & 16 == 0')[0], 'not 0 == metadata & 16') or norm(sts['self.extended'].value) == 'bool(metadata & 16)'),
              'extended marker = bit 4; found %s' % (norm(sts['self.extended'].value) if 'self.extended' in sts else None))
     g2 = cfg_of(init)
     ro = [n for n in g2.nodes if n.kind == 'stmt' and isinstance(n.ast, ast.Assign) and norm(n.ast.targets[0]) == 'self.access']
